@@ -206,6 +206,9 @@ def run(ctx):
         sts  = tsts if 'task' in kind else psts
         req  = rng.choice(reqs(sts))
         to   = rng.choice([0, 0, 1, 2, 3, 5, 9])
+        if rng.random() < 0.04:
+            # a long wait that has to run into its timeout: 11 - 32 virtual seconds (88 - 256 ticks)
+            to = rng.choice([88, 100, 121, 200, 256])
         if kind in ('task_wait', 'pilot_wait'):
             ops.append({'op': kind, 'req': req, 'to': to, 'traj': reachable_traj(rng, sts, FIN, 7)})
         else:
